@@ -3,8 +3,8 @@ CONSTANTS
   MaxLen = 3
   Srcs = {"task_val", "task_err", "task_exc", "sched_val", "sched_throw", "lcontract_val"}
   Atts = {"inline", "e1", "inh"}
-  Args = {"V", "E", "X", "R"}
-  Behs = {"val", "throw", "res_err", "fut_pending", "task_make", "task_sched"}
+  Args = {"V", "E", "R"}
+  Behs = {"val", "throw", "fut_pending", "task_make", "task_sched"}
   Rejects = {9}
   Starts = {"to_future", "to_future_e2", "get", "detach", "detach_e2", "drop"}
 INVARIANTS CalledXorDropped DropOnlyWhenStopped RanWhereTold InvokedInOrder LazyEqualsEager CancelRunsNoValueCallback AllocBound Emit
